@@ -31,6 +31,12 @@ pub trait Check: Sync {
     /// Maximum length of each tape.
     fn tape_lens(&self) -> Vec<usize>;
     fn run_case(&self, tapes: &[Vec<u16>], want_decoded: bool) -> CaseReport;
+    /// Run the case `pre` and then the case `tapes` on one fresh thread and report
+    /// on the second one (its decoded form must contain the first, so that a
+    /// replay does the same).  `None`: this check has no such form.
+    fn run_after(&self, _pre: &[Vec<u16>], _tapes: &[Vec<u16>]) -> Option<CaseReport> {
+        None
+    }
 }
 
 #[derive(Default, Clone)]
@@ -144,6 +150,10 @@ pub fn search(
                     .collect();
                 let stats = std::cell::RefCell::new(Stats::default());
                 let failed = std::cell::Cell::new(false);
+                // the last cases this worker thread ran, and the first failing one as it
+                // was observed (a failure may depend on what the thread did before)
+                let history: std::cell::RefCell<std::collections::VecDeque<Vec<Vec<u16>>>> = Default::default();
+                let first_fail: std::cell::RefCell<Option<(Vec<Vec<u16>>, Violation)>> = Default::default();
                 let res = runner.run(&strategy, |tapes| {
                     let mut stats = stats.borrow_mut();
                     let was_failed = failed.get();
@@ -190,17 +200,28 @@ pub fn search(
                             }
                         }
                     }
+                    if !was_failed && fatal.is_none() {
+                        let mut h = history.borrow_mut();
+                        h.push_back(tapes.clone());
+                        if h.len() > 48 {
+                            h.pop_front();
+                        }
+                    }
                     if let Some(v) = fatal {
                         if !was_failed && stop.swap(true, Ordering::SeqCst) {
                             // another worker is already shrinking a failure
                             return Ok(());
+                        }
+                        if !was_failed {
+                            *first_fail.borrow_mut() = Some((tapes.clone(), v.clone()));
                         }
                         failed.set(true);
                         return Err(TestCaseError::fail(format!("{}: {}", v.kind, v.msg)));
                     }
                     Ok(())
                 });
-                if let Err(TestError::Fail(_reason, tapes)) = res {
+                if let Err(TestError::Fail(reason, tapes)) = res {
+                    let reason = reason.to_string();
                     // finishing shrink of ours, then re-run the minimal case to get
                     // violation + decoded form
                     let tapes = shrink_tapes(check, prop, tapes, known, 1500);
@@ -211,6 +232,37 @@ pub fn search(
                         .iter()
                         .find(|v| v.prop == prop && known(v, &dec).is_none())
                         .cloned();
+                    let _ = &reason;
+                    let (viol, tapes, dec) = if viol.is_some() {
+                        (viol, tapes, dec)
+                    } else {
+                        // The minimal case does not show the failure again: it depended on
+                        // what this thread did before.  Never drop it (that would end the
+                        // search of every worker without a verdict): look for one earlier
+                        // case after which it shows again on a fresh thread, else report it
+                        // as observed.
+                        let (ft, fv) = first_fail.borrow().clone().expect("first failure recorded");
+                        let mut found = None;
+                        for pre in history.borrow().iter().rev() {
+                            if let Some(rep) = check.run_after(pre, &ft) {
+                                let d = rep.decoded.clone().unwrap_or(Value::Null);
+                                if let Some(v) = rep.violations.iter().find(|v| v.prop == prop && known(v, &d).is_none()) {
+                                    let mut v = v.clone();
+                                    v.msg = format!("{} [only after another run on the same thread: the replay file contains that run]", v.msg);
+                                    found = Some((Some(v), ft.clone(), d));
+                                    break;
+                                }
+                            } else {
+                                break;
+                            }
+                        }
+                        found.unwrap_or_else(|| {
+                            let d = guarded(check, &ft, true).decoded.unwrap_or(Value::Null);
+                            let mut v = fv.clone();
+                            v.msg = format!("{} [observed once, after other cases on the same thread; the case alone does not show it, so the replay file is not expected to reproduce it]", v.msg);
+                            (Some(v), ft, d)
+                        })
+                    };
                     if let Some(violation) = viol {
                         let mut f = failure.lock().unwrap();
                         if f.is_none() {
